@@ -337,3 +337,16 @@ _amend("C06", "level", "message prefix flows from the token's location)", "messa
 _amend("C11", "level", "and no separator (',' ';' '}') before it.", "no separator (',' ';' '}') before it, and nothing fetched after a function body has been skipped.")
 _amend("C01", "level", "per-iteration flag re-initialisation and namespace walk,", "per-iteration flag re-initialisation and namespace walk, the #include operand cut out exactly as the lexer rule admits it (shared with C09),")
 _amend("C14", "level", "and no token reported both as a flag and inside a value.", "no token reported both as a flag and inside a value, and every literal of the reference literal grammar taken whole by its lexer rule, so that a literal in a value is one token (language inclusion and leftmost-first preference on the rule automata, shared with C08).")
+# round 7 / 8
+CLAIMS["C01"]["level"] += " Also, shared: every lexer keyword is one the parser knows (C02's keyword partition), template arguments that are type-ids get the trial parse as types (C02's guard rules)."
+CLAIMS["C02"]["level"] += " A FunctionType built from the fields of one Function takes every field the two classes share (whole package)."
+CLAIMS["C03"]["level"] += " An inline member body ends where its braces balance, counted token by token (C13's counting loop and token-accessor discipline under this id)."
+CLAIMS["C06"]["level"] += " Code that runs at construction (outside the catch-all) never indexes the input text without a test of it; brackets are matched by counting only in the body skipper."
+CLAIMS["C08"]["level"] += " PLY's scanning loop hands out nothing and moves nowhere before the master regular expression was tried (dominance in Lexer.token); discarding t_ignore_ string rules are modelled (text lost, newlines not counted)."
+CLAIMS["C10"]["level"] += " Line-end normalisation before lexing keeps one line end per line (shared with C09)."
+CLAIMS["C11"]["level"] += " The buffer the comment scans read holds every raw token, comments included, unchanged (the buffer fill interpreted over raw-token scripts)."
+CLAIMS["C13"]["level"] += " Regions are skipped token by token: parser.py reaches the input only through the token accessors (C09's who-may-call rule under this id)."
+CLAIMS["C14"]["level"] += " A collected token list is passed on on every completing path (inspection and one arm of a conditional expression do not count); the buffer the values are cut from holds every raw token once, unchanged (fill interpretation); a '['-opened group stripped of its delimiters is checked for the fused ']]' closer."
+CLAIMS["C15"]["level"] += " Library modules call no setter of process-wide interpreter state (recursion limit, cwd, environment, locale, warning filters, hooks)."
+CLAIMS["C17"]["level"] += " Text leaves (str fields) are written verbatim, and text returned by a child's format()/format_decl()/tokfmt is only concatenated, never edited."
+CLAIMS["C19"]["level"] += " The main-file name handed to a filter never derives from the preprocessor's output; the gcc filter compares with the name escaped as gcc writes it on every path."
